@@ -124,6 +124,39 @@ def run(ctx):
             eqf = any(v for i, v in eqs if i == idx)
             a = agg_variant(opt)
             k = const_int(start[3]) if isinstance(start, tuple) and start[0] == "binop" and start[1] == "Add" and start[2] == idx else None
+            if k is None:
+                # index + 1 + usize::from(has_eq): the leaves of the sum; a bool turned into 0 / 1 is read off the path (has_eq is what this
+                # path branched on)
+                leaves = []
+
+                def walk_(x):
+                    if isinstance(x, tuple) and x and x[0] == "binop" and x[1] == "Add":
+                        walk_(x[2])
+                        walk_(x[3])
+                    else:
+                        leaves.append(x)
+                walk_(strip_refs(start))
+                if sum(1 for x in leaves if x == idx) == 1:
+                    tot = 0
+                    for x in leaves:
+                        if x == idx:
+                            continue
+                        if const_int(x) is not None:
+                            tot += const_int(x)
+                            continue
+                        b_ = strip_refs(x)
+                        for _ in range(3):
+                            if is_call(b_, "From<bool>>::from", "usize::from", "::from", "::into") and len(call_args(b_)) == 1:
+                                b_ = strip_refs(call_args(b_)[0])
+                            elif isinstance(b_, tuple) and b_ and b_[0] == "cast":
+                                b_ = strip_refs(b_[-1])
+                        fb = [c_.fact for c_ in p.conds() if strip_refs(c_.term) == b_ and c_.fact[0] == "eq" and isinstance(c_.fact[1], bool)]
+                        if fb:
+                            tot += 1 if fb[-1][1] else 0
+                        else:
+                            tot = None
+                            break
+                    k = tot
             from_match = mentions(idx, lambda s: is_call(s, "::next")) and mentions(idx, lambda s: is_call(s, "str>::match_indices"))
             seen.setdefault((ch, eqf), set()).add((a[1] if a else None, k, from_match))
         want = {(">", True): ("GE", 2), (">", False): ("GT", 1), ("<", True): ("LE", 2), ("<", False): ("LT", 1)}
